@@ -1,5 +1,6 @@
 import Psa.JsonIO
 import Psa.Metrics
+import Psa.MetricsCache
 namespace PSA.IO
 open Lean PSA
 
@@ -21,7 +22,26 @@ def metricCountsOp (j : Json) : R Json := do
     | .ok "error" => cr := cr.inc (errorSeries (boolD e "fatal") (reqLabels e))
     | .ok "reset" => ce := ce.reset; cx := cx.reset; cr := cr.reset
     | _ => throw "bad event"
+  -- the two cached vectors are answered by the handle-cache machine (Psa/MetricsCache.lean) run over the same history; the
+  -- plain counter maps only supply the list of tuples to report (the two agree: C18_cache_refines)
+  let evalToCache : List (List Str) :=
+    [[b!"allow", b!"privileged", b!"latest", b!"enforce", b!"create", b!"pod", b!""],
+     [b!"allow", b!"privileged", b!"latest", b!"enforce", b!"update", b!"pod", b!""]]
+  let exemptToCache : List (List Str) :=
+    [[b!"create", b!"pod", b!""], [b!"update", b!"pod", b!""], [b!"create", b!"controller", b!""], [b!"update", b!"controller", b!""]]
+  let mut ve := MetricsCache.init evalToCache
+  let mut vx := MetricsCache.init exemptToCache
+  for e in evs do
+    match (fldD e "kind").getStr? with
+    | .ok "eval" =>
+      let lv : LevelVersion := ⟨← level (← fld e "level"), ← ver (← fld e "version")⟩
+      ve := MetricsCache.inc ve (evalSeries server (strD e "decision") lv (strD e "mode") (reqLabels e))
+    | .ok "exempt" => vx := MetricsCache.inc vx (exemptSeries (reqLabels e))
+    | .ok "reset" => ve := MetricsCache.reset evalToCache ve; vx := MetricsCache.reset exemptToCache vx
+    | _ => pure ()
   let enc (c : Counters) : Json := Json.arr (c.map (fun kv => Json.arr #[jstrs kv.1, Json.num (kv.2 : JsonNumber)])).toArray
-  return Json.mkObj [("evaluations", enc ce), ("exemptions", enc cx), ("errors", enc cr)]
+  let encV (c : Counters) (v : MetricsCache.Vec) : Json :=
+    Json.arr (c.map (fun kv => Json.arr #[jstrs kv.1, Json.num (MetricsCache.count v kv.1 : JsonNumber)])).toArray
+  return Json.mkObj [("evaluations", encV ce ve), ("exemptions", encV cx vx), ("errors", enc cr)]
 
 end PSA.IO
